@@ -69,7 +69,7 @@ func (r *runner) failed() bool { return r.stop() || r.desync }
 
 // RunScenario executes one scenario inside its own synctest bubble.
 func RunScenario(t *testing.T, sc *Scenario) *Result {
-	res := &Result{Triggers: map[string]int{}, States: map[string]bool{}, Blocks: map[string]bool{}, Streams: map[string]string{}}
+	res := &Result{Stats: map[string]int{}, Triggers: map[string]int{}, States: map[string]bool{}, Blocks: map[string]bool{}, Streams: map[string]string{}}
 	defer func() {
 		// the end-of-bubble deadlock panic (a goroutine that could not be killed)
 		if p := recover(); p != nil {
@@ -119,7 +119,11 @@ func (r *runner) run() {
 			for j < len(steps) && steps[j].Block == st.Block {
 				j++
 			}
-			r.runBlock(steps[i:j])
+			if steps[i].Variant == "big" {
+				r.runBigBlock(steps[i:j])
+			} else {
+				r.runBlock(steps[i:j])
+			}
 			i = j
 			continue
 		}
@@ -569,7 +573,15 @@ func (r *runner) serverCheck(kind string) bool {
 
 func (r *runner) checkServerOnly() { r.serverCheck("") }
 
+func (r *runner) drainLedger() {
+	for _, v := range r.w.ledger.viol {
+		r.violate(v)
+	}
+	r.w.ledger.viol = nil
+}
+
 func (r *runner) checkState(out *Outcome) {
+	r.drainLedger()
 	if r.stop() {
 		return
 	}
@@ -581,7 +593,8 @@ func (r *runner) checkState(out *Outcome) {
 		return
 	}
 	if r.desync {
-		// only what does not need the model: views against the server's own state
+		// only what does not need the model: registry beliefs, views against the server's own state
+		r.checkBeliefs()
 		r.checkViews()
 		return
 	}
@@ -610,6 +623,7 @@ func (r *runner) checkState(out *Outcome) {
 	if workers != len(r.m.Live) {
 		r.v("C07", "frame-worker-leak", "%d frame workers are running, %d sessions are live", workers, len(r.m.Live))
 	}
+	r.checkBeliefs()
 	// 3. replicated views
 	if len(r.dis) == 0 {
 		r.checkViews()
@@ -673,6 +687,22 @@ func (r *runner) serverSnapshot() map[string]*MSession {
 			if st, ok := ss.ModuleState("odal"); ok {
 				for _, a := range st.(*odal.State).AssetInstances() {
 					t.Assets[a.GetEntityId()] = vasset(a)
+				}
+			}
+			// attachments of entities that do not exist mean nothing to a client
+			for k := range t.Components {
+				if t.Entities[k.Entity] == nil {
+					delete(t.Components, k)
+				}
+			}
+			for e := range t.Actions {
+				if t.Entities[e] == nil {
+					delete(t.Actions, e)
+				}
+			}
+			for e := range t.Assets {
+				if t.Entities[e] == nil {
+					delete(t.Assets, e)
 				}
 			}
 			snap[ss.SessionUUID] = t
@@ -743,12 +773,12 @@ func (r *runner) checkViews() {
 			}
 			gc, wc := map[CKey]string{}, map[CKey]string{}
 			for k, d := range v.Components {
-				if k.Type == typ {
+				if k.Type == typ && !v.Uncertain[k] {
 					gc[k] = d
 				}
 			}
 			for k, d := range s.Components {
-				if k.Type == typ {
+				if k.Type == typ && !v.Uncertain[k] {
 					wc[k] = d
 				}
 			}
